@@ -268,6 +268,7 @@ func C11(cfg Cfg) int {
 			run.Sample(map[string]any{"history": hist, "export": fmtTrips(exp), "probes": ps[:6], "verdicts_original": fmt.Sprint(vo[:6]), "verdicts_reimported": fmt.Sprint(vr[:6])})
 		}
 	}
+	c11Large(run, cfg, r)
 	c11Legacy(run, cfg, r)
 	if run.Get("probes") == 0 {
 		run.Inconclusive("no probe was evaluated")
@@ -409,5 +410,116 @@ func c11Legacy(run *evid.Run, cfg Cfg, r *rand.Rand) {
 		if h == 0 {
 			run.Sample(map[string]any{"legacy_records": desc, "probes": ps[:4], "verdicts": fmt.Sprint(vs[:4])})
 		}
+	}
+}
+
+// c11Large: stores holding hundreds of records (more than any iterator prefetch window): the export must
+// still be exact for every key and the re-imported instance must decide like the restarted original.
+func c11Large(run *evid.Run, cfg Cfg, r *rand.Rand) {
+	for round := 0; round < cfg.N(2, 12) && run.NumViolations() < 5; round++ {
+		nkeys := []int{130, 320, 75, 1000}[round%4]
+		baseO, baseR := filepath.Join(cfg.Work, "large-orig"), filepath.Join(cfg.Work, "large-reimport")
+		_ = os.RemoveAll(baseO)
+		_ = os.RemoveAll(baseR)
+		_ = rig.NewBaseDir(baseO)
+		_ = rig.NewBaseDir(baseR)
+		keys := rig.DetKeys(fmt.Sprintf("c11big-%d", round), nkeys)
+		svc, err := rig.OpenRules(baseO)
+		if err != nil {
+			run.Inconclusive(err.Error())
+			return
+		}
+		wm := make([]oracle.WM, nkeys)
+		for k, key := range keys {
+			if r.Intn(8) > 0 {
+				src := uint64(r.Intn(1000))
+				tgt := src + 1 + uint64(r.Intn(50))
+				if ruleAtt(svc, key.Pub, src, tgt) == rules.APPROVED {
+					wm[k].SignedAtt(src, tgt)
+				}
+			}
+			if r.Intn(8) > 0 {
+				slot := uint64(r.Intn(100000))
+				if ruleProp(svc, key.Pub, slot) == rules.APPROVED {
+					wm[k].SignedProp(slot)
+				}
+			}
+		}
+		exp, err := exportTrips(svc)
+		_ = svc.Close(context.Background())
+		if err != nil {
+			run.Violate("export of a large store failed: "+err.Error(), nil)
+			continue
+		}
+		want := map[[48]byte]trip{}
+		for k, key := range keys {
+			t := trip{-1, -1, -1}
+			if wm[k].HasProp {
+				t.Slot = int64(wm[k].MaxSlot)
+			}
+			if wm[k].HasAtt {
+				t.Src, t.Tgt = int64(wm[k].MaxSrc), int64(wm[k].MaxTgt)
+			}
+			if t != (trip{-1, -1, -1}) {
+				want[key.Pub48()] = t
+			}
+		}
+		wrong := 0
+		for k, w := range want {
+			if exp[k] != w {
+				wrong++
+			}
+		}
+		run.Eval(nkeys)
+		run.Count("large_store_records_compared", len(want))
+		if wrong > 0 || len(exp) != len(want) {
+			run.Violate(fmt.Sprintf("export of a store with %d keys: %d of %d exported entries differ from what was signed (%d entries exported)", nkeys, wrong, len(want), len(exp)), nil)
+		}
+		// CLI export -> CLI import -> same decisions on a sample of keys.
+		expFile := filepath.Join(baseO, "export.json")
+		if _, se, code := rig.RunDirk(baseO, "--export-slashing-protection", "--genesis-validators-root", gvr, "--slashing-protection-file", expFile); code != 0 {
+			run.Violate("command-line export of a large store failed: "+se, nil)
+			continue
+		}
+		if cli, err := parseInterchange(expFile); err != nil || !sameTrips(cli, want) {
+			run.Violate(fmt.Sprintf("command-line export of a store with %d keys differs from what was signed (%v)", nkeys, err), nil)
+		}
+		if _, se, code := rig.RunDirk(baseR, "--import-slashing-protection", "--genesis-validators-root", gvr, "--slashing-protection-file", expFile); code != 0 {
+			run.Violate("importing the export of a large store failed: "+se, nil)
+			continue
+		}
+		svcO, err1 := rig.OpenRules(baseO)
+		svcR, err2 := rig.OpenRules(baseR)
+		if err1 != nil || err2 != nil {
+			run.Violate(fmt.Sprintf("large store cannot be reopened: %v %v", err1, err2), nil)
+			continue
+		}
+		// Probe a spread of keys (first, last and random ones), at and just above each watermark.
+		probed := map[int]bool{}
+		for _, k := range append([]int{0, 1, nkeys - 1, nkeys / 2}, r.Perm(nkeys)[:40]...) {
+			if probed[k] {
+				continue // each key is probed once: probes advance its state
+			}
+			probed[k] = true
+			sub := []*rig.Key{keys[k]}
+			ps := c11Probes(r, []oracle.WM{wm[k]})
+			vo, vr := runProbes(svcO, sub, ps), runProbes(svcR, sub, ps)
+			model := modelProbes([]oracle.WM{wm[k]}, ps)
+			for i := range ps {
+				run.Eval(1)
+				if vo[i] != vr[i] {
+					run.Violate(fmt.Sprintf("large store (%d keys): restarted original and re-imported instance decide differently for key %d on probe %+v: %s vs %s", nkeys, k, ps[i], vo[i], vr[i]), nil)
+					break
+				}
+				if (vo[i] == rules.APPROVED) != (model[i] == "approve") {
+					run.Violate(fmt.Sprintf("large store (%d keys): key %d probe %+v answered %s, the signed history demands %s", nkeys, k, ps[i], vo[i], model[i]), nil)
+					break
+				}
+			}
+			run.Count("probes", len(ps))
+		}
+		_ = svcO.Close(context.Background())
+		_ = svcR.Close(context.Background())
+		run.Distinct(fmt.Sprintf("large store %d keys", nkeys))
 	}
 }
